@@ -20,6 +20,26 @@ use verif_harness::common::*;
 
 fn main() {
     run_cases(|input: &Value| {
+        let obs = observe_case(input);
+        // an optional registry row: the type without or with that row conforms
+        if let Some(Value::Array(opts)) = input.get("opt") {
+            if opts.iter().any(|o| same(o, &obs)) {
+                return json!("conforms");
+            }
+            if let Some(Value::Object(m)) = input.get("optdev") {
+                for (d, vs) in m.iter() {
+                    if vs.as_array().map(|a| a.iter().any(|o| same(o, &obs))).unwrap_or(false) {
+                        return json!({"conforms_dev": d});
+                    }
+                }
+            }
+        }
+        obs
+    });
+}
+
+fn observe_case(input: &Value) -> Value {
+    {
         let ty = input["ty"].as_str().unwrap_or("");
         match input["k"].as_str().unwrap_or("") {
             "code" => {
@@ -53,5 +73,5 @@ fn main() {
             },
             _ => json!({"bad_case": true}),
         }
-    });
+    }
 }
